@@ -167,6 +167,15 @@ func (l *List) LRange(key string, start, end int) (list [][]byte, err error) {
 		start, end = size+start, size+end
 	}
 
+	if start < 0 && end == 0 {
+		start = size + start
+	}
+
+	// a start below the head of the list is clamped to the head
+	if start < 0 {
+		start = 0
+	}
+
 	if end >= size {
 		end = size - 1
 	}
